@@ -1,6 +1,7 @@
 """C04 - reset is local: target to |0>, other qubits' statistics unchanged."""
 import time
 
+import joint_common
 import qrt_common
 import qsim_common
 import vlib
@@ -22,6 +23,12 @@ def run(tier, seed):
     for v in pv[:5]:
         out.violation(v["what"], v, "beh%d" % v["behaviour"])
     nviol += len(pv)
+    # the simulator's OWN random stream (no injected draws): joint distribution of measured bits over thousands of real shots
+    jstats, jviol = joint_common.run(tier)
+    mine = [v for v in jviol if v["property"] == PID]
+    for k, v in enumerate(mine[:4]):
+        out.violation(v["what"], v, "joint%d" % k)
+    nviol += len(mine)
     cov = {"states": meta["distinct"], "transitions": meta["generated"],
            "traces_validated_against_impl": rep["per_action"].get("reset", 0),
            "reset_calls_on_impl": rep["reset_draws"],
@@ -30,7 +37,7 @@ def run(tier, seed):
            "nonstandard_unravelling_poststates": rep["nonstandard_reset_poststates"],
            "samples": rep["samples"][:3] + [{"state": "2|00|1,0,0,0,1,;0,0,0,0,0,;0,0,0,0,0,;1,0,0,0,1,;", "action": "reset(0)",
                                              "note": "Bell pair, unmeasured target: the witness of the defect fixed in 0db43c9"}],
-           "nodes_replayed": rep["nodes"], "unreached_nodes": rep["unreached"], "tlc": meta, "exhaustive": True,
+           "nodes_replayed": rep["nodes"], "unreached_nodes": rep["unreached"], "tlc": meta, "exhaustive": True, "real_rng_joint_statistics": jstats,
            "rule": "for every reachable spec state (<=3 qubits) and every qubit q (measured or not, entangled or not): "
                    "reset(q) is run from a copy of that state's implementation object once per injected draw on the "
                    "18-point grid; each post-state must be a unit vector with zero weight on q=1 and the flag cleared; "
